@@ -145,7 +145,7 @@ impl<'a> G<'a> {
         let n = 1 + self.r.below(2);
         (0..n)
             .map(|_| {
-                let eff = match self.r.weighted(&[8, 4, 3, 3, 1, 1, 1, 1, 1, 1]) {
+                let eff = match self.r.weighted(&[8, 4, 3, 3, 1, 1, 1, 1, 1, 1, 1]) {
                     0 => Effect::Write { var: self.idx(), op: self.write_op() },
                     1 => Effect::WriteArg { var: self.idx(), f: self.f1() },
                     2 => Effect::GetVar { var: self.idx() },
@@ -155,7 +155,8 @@ impl<'a> G<'a> {
                     6 => Effect::Disallow { obs: self.idx() },
                     7 => Effect::DropVar { var: self.idx() },
                     8 => Effect::WriteThenDropVar { var: self.idx(), op: self.write_op() },
-                    _ => Effect::IsStable,
+                    9 => Effect::IsStable,
+                    _ => Effect::ObserveSub { node: self.idx() },
                 };
                 EffectSpec { on: self.on(), eff }
             })
